@@ -294,8 +294,8 @@ pub fn interesting_u64() -> BoxedStrategy<u64> {
 /// Source byte streams: `zero_blocks` leading all-zero blocks of `block` bytes, then scripted
 /// bytes, then the keyed continuation.
 pub fn src_spec(block: usize, max_zero_blocks: usize) -> BoxedStrategy<SrcSpec> {
-    (0..=max_zero_blocks, vec(any::<u8>(), 0..=2 * block + 3), any::<u64>(), 0u8..4)
-        .prop_map(move |(zb, mut tail, salt, mode)| {
+    (0..=max_zero_blocks, vec(any::<u8>(), 0..=2 * block + 3), any::<u64>(), 0u8..4, proptest::bool::weighted(0.3))
+        .prop_map(move |(zb, mut tail, salt, mode, words_differ)| {
             let mut prefix = vec![0u8; zb * block];
             match mode {
                 0 => {}                                      // random tail
@@ -313,7 +313,7 @@ pub fn src_spec(block: usize, max_zero_blocks: usize) -> BoxedStrategy<SrcSpec> 
                 _ => tail.truncate(tail.len() / 3),
             }
             prefix.extend_from_slice(&tail);
-            SrcSpec { prefix, salt }
+            SrcSpec { prefix, salt, words_differ }
         })
         .boxed()
 }
